@@ -1,8 +1,8 @@
 (* C40 -- Predicate formula parse trees are faithful.
    Statements only; the model is Model/Predicate.v (hand-written, compared with the running
    predicate_formula.py on generated formulas by every run of the check), proofs in Proofs/Predicate_proofs.v.
-   [convert false] / [parse_predicate false] is the code as it is; [true] is the code with the proposed repair
-   notes/proposed_fixes/C40-reject-odd-constants.diff applied. *)
+   The model follows the code after the fix commits baa04cb (constants JSON cannot represent are rejected) and
+   23a92f9 (f( **kwargs ) is rejected); the old witnesses are kept below as regression examples. *)
 From Coq Require Import ZArith List Bool String.
 Import ListNotations.
 Require Import Grist.Model.Predicate Grist.Proofs.Predicate_proofs.
@@ -15,14 +15,14 @@ Open Scope Z_scope.
    evaluating the expression in Python gives (same value, same exception, same operands evaluated). *)
 Theorem C40_convert_faithful : forall (M : PySem) (g : env M) (e : expr),
   membership_ignores_tuple M -> in_subset e = true ->
-  exists t, convert false e = Ok t /\ eval_tree M g t = eval_py M g e.
-Proof. intros M g e Hm Hs. exact (convert_faithful_lemma M Hm false g e Hs). Qed.
+  exists t, convert e = Ok t /\ eval_tree M g t = eval_py M g e.
+Proof. intros M g e Hm Hs. exact (convert_faithful_lemma M Hm g e Hs). Qed.
 
 (* ... also through parse_predicate_formula, with or without a comment in the text. *)
 Theorem C40_parse_faithful : forall (M : PySem) (g : env M) (e : expr) (comments : list str),
   membership_ignores_tuple M -> in_subset e = true ->
-  exists t, parse_predicate false (Some e) comments = Ok t /\ eval_tree M g t = eval_py M g e.
-Proof. intros M g e cs Hm Hs. exact (parse_predicate_faithful M Hm false g e cs Hs). Qed.
+  exists t, parse_predicate (Some e) comments = Ok t /\ eval_tree M g t = eval_py M g e.
+Proof. intros M g e cs Hm Hs. exact (parse_predicate_faithful M Hm g e cs Hs). Qed.
 
 (* The hypothesis on M holds for the concrete semantics the check compares with CPython. *)
 Example C40_membership_hypothesis_holds : membership_ignores_tuple CSem.
@@ -49,7 +49,7 @@ Definition ex_tree : tree :=
 
 Example C40_nonvacuous :
   in_subset ex_expr = true /\ supported ex_expr = true /\
-  parse_predicate false (Some ex_expr) [lit "# Allow!  "] = Ok ex_tree /\
+  parse_predicate (Some ex_expr) [lit "# Allow!  "] = Ok ex_tree /\
   eval_py CSem ex_env ex_expr = Val (VBool true) /\
   eval_tree CSem ex_env ex_tree = Val (VBool true) /\
   json_value (to_py ex_tree) = true.
@@ -62,7 +62,7 @@ Example C40_tuple_outside_membership_differs :
   let e := ECompare (1, 0) (ETuple (1, 0) [EConstant (1, 1) (CInt 1); EConstant (1, 4) (CInt 2)]) [OpEq]
                     [EList (1, 10) [EConstant (1, 11) (CInt 1); EConstant (1, 14) (CInt 2)]] in
   in_subset e = false /\
-  exists t, convert false e = Ok t /\
+  exists t, convert e = Ok t /\
             eval_py CSem (cenv_of []) e = Val (VBool false) /\ eval_tree CSem (cenv_of []) t = Val (VBool true).
 Proof. cbv zeta. split; [reflexivity|]. eexists. vm_compute. repeat split; reflexivity. Qed.
 
@@ -70,24 +70,23 @@ Proof. cbv zeta. split; [reflexivity|]. eexists. vm_compute. repeat split; refle
 (* 2. JSON.  A supported expression is accepted, and its tree (Comment node included) consists of JSON
    values only; parse_predicate_formula_json returns valid JSON text for it. *)
 Theorem C40_supported_accepted : forall e comments,
-  supported e = true -> exists t, parse_predicate false (Some e) comments = Ok t.
+  supported e = true -> exists t, parse_predicate (Some e) comments = Ok t.
 Proof.
-  intros e cs Hs. apply is_ok_true_ok. rewrite parse_predicate_err_iff, convert_false_ok_iff.
-  unfold supported in Hs. apply andb_true_iff in Hs. tauto.
+  intros e cs Hs. apply is_ok_true_ok. rewrite parse_predicate_err_iff, convert_ok_iff. exact Hs.
 Qed.
 
 Theorem C40_convert_json : forall e comments t,
-  supported e = true -> parse_predicate false (Some e) comments = Ok t -> json_value (to_py t) = true.
+  supported e = true -> parse_predicate (Some e) comments = Ok t -> json_value (to_py t) = true.
 Proof.
   intros e cs t Hs. unfold supported in Hs. apply andb_true_iff in Hs. apply parse_predicate_json_ok. tauto.
 Qed.
 
 Theorem C40_json_text : forall e comments,
   supported e = true ->
-  exists v, parse_predicate_json false true (Some e) comments = JDumps DumpsJSON v /\ json_value v = true.
+  exists v, parse_predicate_json true (Some e) comments = JDumps DumpsJSON v /\ json_value v = true.
 Proof.
   intros e cs Hs. unfold parse_predicate_json. cbn [negb].
-  destruct (parse_predicate false (Some e) cs) as [t|err] eqn:E.
+  destruct (parse_predicate (Some e) cs) as [t|err] eqn:E.
   - pose proof (C40_convert_json e cs t Hs E) as Hj. exists (to_py t). rewrite (json_dumps_ok _ Hj). auto.
   - destruct (C40_supported_accepted e cs Hs) as [t Ht]. congruence.
 Qed.
@@ -96,106 +95,73 @@ Theorem C40_in_subset_supported : forall e, in_subset e = true -> supported e = 
 Proof. exact in_subset_supported. Qed.
 
 (* ------------------------------------------------------------------------------------------------- *)
-(* 3. Unsupported syntax is rejected.  The full statement: *)
-Definition C40_unsupported_rejected_statement (strict : bool) : Prop :=
-  forall e comments, supported e = false -> exists err, parse_predicate strict (Some e) comments = Err err.
-
-(* What holds of the code as it is: any node of a class without a visit method, any binary operator other
-   than + - * / %, any unary operator other than `not` (unary minus included), any chained comparison,
-   anywhere in the expression, gives a SyntaxError... *)
-Theorem C40_unsupported_rejected_partial : forall e comments x,
-  subexpr x e -> bad_node x -> exists err, parse_predicate false (Some e) comments = Err err.
+(* 3. Unsupported syntax is rejected: every expression outside the supported subset raises SyntaxError, and the
+   converter accepts exactly the supported expressions. *)
+Theorem C40_unsupported_rejected : forall e comments,
+  supported e = false -> exists err, parse_predicate (Some e) comments = Err err.
 Proof.
-  intros e cs x Hx Hb. apply is_ok_false_err. rewrite parse_predicate_err_iff.
-  destruct (bad_node_rejected false e x Hx Hb) as [err ->]. reflexivity.
+  intros e cs Hs. apply is_ok_false_err. rewrite parse_predicate_err_iff, convert_ok_iff. exact Hs.
 Qed.
 
-(* ... and those are the only rejections: the code accepts an expression iff it has no such node. *)
+Theorem C40_accepted_iff_supported : forall e, is_ok (convert e) = supported e.
+Proof. exact convert_ok_iff. Qed.
+
+(* The same, node by node: any node of a class without a visit method, any binary operator other than
+   + - * / %, any unary operator other than `not` (unary minus included), any chained comparison (bad_node), any
+   constant that is not a number/string/bool/None and any call with a **kwargs argument (odd_node), anywhere in
+   the expression, gives a SyntaxError -- and nothing else does. *)
+Theorem C40_bad_node_rejected : forall e comments x,
+  subexpr x e -> bad_node x \/ odd_node x -> exists err, parse_predicate (Some e) comments = Err err.
+Proof.
+  intros e cs x Hx Hb. apply is_ok_false_err. rewrite parse_predicate_err_iff.
+  destruct Hb as [Hb|Hb]; [destruct (bad_node_rejected e x Hx Hb) as [err ->]
+                          | destruct (odd_node_rejected e x Hx Hb) as [err ->]]; reflexivity.
+Qed.
+
 Theorem C40_accepted_iff_no_bad_node : forall e,
-  (exists t, convert false e = Ok t) <-> (forall x, subexpr x e -> ~ bad_node x).
-Proof. exact convert_false_ok_spec. Qed.
+  (exists t, convert e = Ok t) <-> (forall x, subexpr x e -> ~ bad_node x /\ ~ odd_node x).
+Proof. exact convert_ok_spec. Qed.
 
 Example C40_bad_node_example :   (* rec.a > -1 : the unary minus *)
   let neg := EUnaryOp (1, 8) (UOther (lit "USub")) (EConstant (1, 9) (CInt 1)) in
   let e := ECompare (1, 0) (EAttribute (1, 0) (EName (1, 0) (lit "rec")) (lit "a") 4) [OpGt] [neg] in
-  subexpr neg e /\ bad_node neg /\ convert false e = Err (ErrUnsupported (1, 8)).
+  subexpr neg e /\ bad_node neg /\ convert e = Err (ErrUnsupported (1, 8)).
 Proof.
   cbv zeta. split; [|split; [|reflexivity]].
   - eapply sub_step; [apply sub_refl | apply ch_cmpc; left; reflexivity].
   - right; right; left. eauto.
 Qed.
 
-(* The full statement is false for the code as it is: constants that are not number/string/bool/None ... *)
-Theorem C40_refuted_const : ~ C40_unsupported_rejected_statement false.
-Proof.
-  intros H. destruct (H (EConstant (1, 0) CEllipsis) [] eq_refl) as [err Herr]. discriminate.
-Qed.
-
-(* ... each kind of them is accepted and the tree is not JSON (json.dumps raises TypeError, or, for an
-   infinite float, writes the non-JSON token Infinity) ... *)
-Example C40_refuted_const_witnesses :
-  let bad c := supported (EConstant (1, 0) c) = false /\
-               parse_predicate false (Some (EConstant (1, 0) c)) [] = Ok (TConst c) /\
-               json_value (to_py (TConst c)) = false in
-  bad CEllipsis /\ bad (CBytes [120]) /\ bad (CComplex 4607182418800017408) /\ bad (CFloat 9218868437227405312) /\
-  dumps_outcome (to_py (TConst CEllipsis)) = DumpsTypeError /\
-  dumps_outcome (to_py (TConst (CBytes [120]))) = DumpsTypeError /\
-  dumps_outcome (to_py (TConst (CComplex 4607182418800017408))) = DumpsTypeError /\
-  dumps_outcome (to_py (TConst (CFloat 9218868437227405312))) = DumpsNotJSON.
+(* Regression examples: the inputs on which the code violated the statement before the fix commits
+   (..., b'x', 1j, 1e999 and f( **k ) were accepted) are unsupported and are rejected at the node itself. *)
+Example C40_regression_odd_constants :
+  let rejected c := supported (EConstant (1, 0) c) = false /\
+                    parse_predicate (Some (EConstant (1, 0) c)) [] = Err (ErrUnsupported (1, 0)) in
+  rejected CEllipsis /\ rejected (CBytes [120]) /\ rejected (CComplex 4607182418800017408) /\
+  rejected (CFloat 9218868437227405312) /\
+  parse_predicate (Some (EConstant (1, 0) (CFloat 4607182418800017408))) [] = Ok (TConst (CFloat 4607182418800017408)).
 Proof. vm_compute. repeat split; reflexivity. Qed.
 
-(* ... and f( **k ) is accepted: the tree has a keyword without a name, which no documented node describes
-   (it evaluates to no value in any environment, under any interpretation of the operations). *)
-Theorem C40_refuted_kwargs :
-  let e := ECall (1, 0) (EName (1, 0) (lit "f")) [] [(None, EName (1, 4) (lit "k"))] in
-  supported e = false /\
-  exists t, parse_predicate false (Some e) [] = Ok t /\
-            to_py t = PList [pstr "Call"; PList [pstr "Name"; PLeaf (CStr (lit "f"))];
-                             PList [pstr "keywords"; PList [PLeaf CNone; PList [pstr "Name"; PLeaf (CStr (lit "k"))]]]] /\
-            forall (M : PySem) (g : env M) v, eval_tree M g t <> Val v.
-Proof.
-  cbv zeta. split; [reflexivity|]. eexists. split; [reflexivity|]. split; [reflexivity|].
-  intros M g v. cbn. match goal with |- context [g ?k] => destruct (g k) end; cbn; discriminate.
-Qed.
-
-(* These are the only gaps: an unsupported expression that is accepted contains an odd constant or a
-   call with a **kwargs argument. *)
-Theorem C40_gap_exact : forall e t,
-  supported e = false -> convert false e = Ok t -> exists x, subexpr x e /\ odd_node x.
-Proof.
-  intros e t Hs Hc. apply plain_false_odd. unfold supported in Hs.
-  assert (Hsh : shape_ok e = true) by (rewrite <- convert_false_ok_iff, Hc; reflexivity).
-  rewrite Hsh in Hs. exact Hs.
-Qed.
-
-(* With the proposed repair the full statement holds, exactly the supported expressions are accepted, and
-   nothing changes for them. *)
-Theorem C40_unsupported_rejected_repaired : C40_unsupported_rejected_statement true.
-Proof.
-  intros e cs Hs. apply is_ok_false_err. rewrite parse_predicate_err_iff, convert_true_ok_iff. exact Hs.
-Qed.
-
-Theorem C40_repaired_accepts_iff_supported : forall e, is_ok (convert true e) = supported e.
-Proof. exact convert_true_ok_iff. Qed.
-
-Theorem C40_repair_conservative : forall e, supported e = true -> convert true e = convert false e.
-Proof. intros e Hs. apply repair_conservative. unfold supported in Hs. apply andb_true_iff in Hs. tauto. Qed.
+Example C40_regression_kwargs :
+  let e := ECall (1, 0) (EName (1, 0) (lit "f")) [EName (1, 2) (lit "a")] [(None, EName (1, 7) (lit "k"))] in
+  supported e = false /\ parse_predicate (Some e) [] = Err (ErrUnsupported (1, 0)).
+Proof. vm_compute. split; reflexivity. Qed.
 
 (* A text CPython's parser rejects is a SyntaxError (oracle). *)
-Theorem C40_parser_error : forall strict comments, parse_predicate strict None comments = Err ErrParser.
+Theorem C40_parser_error : forall comments, parse_predicate None comments = Err ErrParser.
 Proof. reflexivity. Qed.
 
 (* ------------------------------------------------------------------------------------------------- *)
 (* 4. Comments.  With a comment in the text the result is [Comment, tree of the expression, text of the first
    comment without `#` and surrounding blanks]; without one it is the tree of the expression; the Comment
    node does not change the value. *)
-Theorem C40_comment_node : forall strict e comments c t,
-  first_comment comments = Some c -> parse_predicate strict (Some e) comments = Ok t ->
-  exists t0, convert strict e = Ok t0 /\ t = TComment t0 (py_strip (tl c)).
+Theorem C40_comment_node : forall e comments c t,
+  first_comment comments = Some c -> parse_predicate (Some e) comments = Ok t ->
+  exists t0, convert e = Ok t0 /\ t = TComment t0 (py_strip (tl c)).
 Proof. exact parse_predicate_comment. Qed.
 
-Theorem C40_no_comment : forall strict e comments,
-  first_comment comments = None -> parse_predicate strict (Some e) comments = convert strict e.
+Theorem C40_no_comment : forall e comments,
+  first_comment comments = None -> parse_predicate (Some e) comments = convert e.
 Proof. exact parse_predicate_no_comment. Qed.
 
 Theorem C40_comment_transparent : forall (M : PySem) (g : env M) t c, eval_tree M g (TComment t c) = eval_tree M g t.
@@ -210,6 +176,6 @@ Theorem C40_comment_strip : forall s,
 Proof. exact py_strip_spec. Qed.
 
 Example C40_comment_example :
-  parse_predicate false (Some (EConstant (1, 0) (CBool true))) [lit "# Comment!  "; lit "# second"]
+  parse_predicate (Some (EConstant (1, 0) (CBool true))) [lit "# Comment!  "; lit "# second"]
   = Ok (TComment (TConst (CBool true)) (lit "Comment!")).
 Proof. reflexivity. Qed.
